@@ -23,8 +23,17 @@ Fixpoint stats_ok (seen : list event) (retries hedges execs : Z) (tlast : Z) (l 
       && (tlast <=? e_time e) && stats_ok (e :: seen) retries' hedges' execs' (e_time e) l'
   end.
 
+(* start times (not covered by the theorem; evaluated on the implementation's log): every observer sees the same
+   StartTime, the instant the execution began; an AttemptStartTime lies between it and the instant of the observation *)
+Definition times_ok (o : xobs) : bool :=
+  forallb (fun e => match e_kind e with
+                    | KBreaker => true
+                    | _ => (e_start e =? x_start o)
+                           && ((e_astart e =? -1) || ((x_start o <=? e_astart e) && (e_astart e <=? e_time e)))
+                    end) (x_events o).
+
 Definition c17_ok (q : request) (o : xobs) : bool :=
-  if q_withexec q then stats_ok [] 0 0 0 (match x_events o with e :: _ => e_time e | [] => 0 end) (x_events o) else true.
+  if q_withexec q then stats_ok [] 0 0 0 (match x_events o with e :: _ => e_time e | [] => 0 end) (x_events o) && times_ok o else true.
 
 (* ---- C16: completion events exactly once and consistent; retry events consistent *)
 Definition last_n {A} (n : nat) (l : list A) : list A := rev (firstn n (rev l)).
@@ -72,7 +81,22 @@ Fixpoint c11_hits_ok (l : list event) : bool :=
       && c11_hits_ok l'
   | _ => true
   end.
-Definition c11_ok (q : request) (o : xobs) : bool := c11_hits_ok (x_events o).
+(* a cache policy that is the outermost policy: after a miss the returned result is stored (OnResultCached fires) exactly
+   when it is cacheable -- no error under the default condition, or a CacheIf condition matches -- and the key is not "" *)
+Definition c11_store_ok (q : request) (o : xobs) : bool :=
+  match q_stack q with
+  | PCache _ cfg :: _ =>
+      let missed := existsb (fun e => kind_is KCacheMiss e && Nat.eqb (e_pos e) 0) (x_events o) in
+      let stored := existsb (fun e => kind_is KCached e && Nat.eqb (e_pos e) 0) (x_events o) in
+      let key := match q_key q with CKStr k => k | _ => ca_key cfg end in
+      let out := x_out o in
+      let cacheable := (match ca_conds cfg with [] => true | _ => false end && negb (has_err out)) || applies_to_any (ca_conds cfg) out in
+      if q_run q then true
+      else if missed then Bool.eqb stored (cacheable && negb (key =? 0)) else negb stored
+  | _ => true
+  end.
+
+Definition c11_ok (q : request) (o : xobs) : bool := c11_hits_ok (x_events o) && c11_store_ok q o.
 
 (* ---- C10: the fallback is applied only right after this fallback classified the inner result a failure *)
 Fixpoint c10_fb_ok (prev : option event) (l : list event) : bool :=
